@@ -71,6 +71,11 @@ pub fn v0s(k: InKind) -> Vec<In> {
 			let mut v: Vec<In> = alpha::k_candles().into_iter().map(In::C).collect();
 			v.push(In::C(alpha::candle(alpha::big(), alpha::big() * 2.0, alpha::big() * 0.5, alpha::big(), 3.0)));
 			v.push(In::C(alpha::candle(alpha::tiny(), alpha::tiny() * 2.0, alpha::tiny() * 0.5, alpha::tiny(), alpha::big())));
+			// high and low one unit in the last place apart (a relative "is it flat?" test would call it flat)
+			let one = 1.0 as ValueType;
+			let below = ValueType::from_bits(one.to_bits() - 1);
+			v.push(In::C(yata::core::Candle { open: one, high: one, low: below, close: one, volume: 3.0 }));
+			v.push(In::C(yata::core::Candle { open: below, high: one, low: below, close: below, volume: 5.0 }));
 			v
 		}
 	}
